@@ -878,6 +878,14 @@ the caller (no successor inside the unit reads it: `Instr.node` and `Code.height
 instructions) — `Instr.isRet` (RetExact.lean) tells `ret` from the throwing terminals by it. -/
 def iRet : Instr := ⟨"_ret", 0, 1, 1, 1, true⟩
 
+/-- the head of a `for` statement: nothing, an expression, or a `var` declaration with one binding
+(`ForLoopInitializerVarDeclList` → compileVarBinding → emitVarAssign, like the `var` statement) -/
+inductive ForInit
+  | none
+  | expr (e : Expr)
+  | var0                                  -- `for (var x; …)`
+  | varInit (c : IdClass) (init : Expr)   -- `for (var x = init; …)`
+
 mutual
 inductive Stmt
   | expr (e : Expr)
@@ -889,7 +897,7 @@ inductive Stmt
   | ifElse (t : Expr) (a b : Stmt)
   | whileS (t : Expr) (body : Stmt)
   | doWhile (body : Stmt) (t : Expr)
-  | forS (init test update : Option Expr) (body : Stmt)
+  | forS (init : ForInit) (test update : Option Expr) (body : Stmt)
   | ret (e : Option Expr)
   | throwS (e : Expr)
 inductive Stmts
@@ -930,6 +938,18 @@ def optG (cfg : Cfg) : Option Expr → Code
   | none => .nil
   | some e => emitG cfg e false
 
+/-- emitVarAssign (compiler_stmt.go:776) with an initialiser: a statically resolved binding is initialised in place,
+otherwise through a reference -/
+def emitVarInit (cfg : Cfg) (c : IdClass) (init : Expr) : Code :=
+  if isDyn c then cat [emitVarRef cfg c, emitE cfg init true, .ins iInitValueP]
+  else .seq (emitE cfg init true) (.ins iInitStackP)
+
+def emitForInit (cfg : Cfg) : ForInit → Code
+  | .none => .nil
+  | .expr e => emitG cfg e false
+  | .var0 => .nil
+  | .varInit c e => emitVarInit cfg c e
+
 mutual
 def emitS (cfg : Cfg) : Stmt → Bool → Code
   -- compileExpressionStatement (compiler_stmt.go:1070)
@@ -937,10 +957,7 @@ def emitS (cfg : Cfg) : Stmt → Bool → Code
   -- compileEmptyStatement (:554)
   | .empty, nr => clr nr
   | .varBare, _ => .nil
-  -- emitVarAssign (:776): a statically resolved binding is initialised in place, otherwise through a reference
-  | .varInit c init, _ =>
-      if isDyn c then cat [emitVarRef cfg c, emitE cfg init true, .ins iInitValueP]
-      else .seq (emitE cfg init true) (.ins iInitStackP)
+  | .varInit c init, _ => emitVarInit cfg c init
   -- compileBlockStatement (:1042) without declarations = compileStatements
   | .block ss, nr => emitList cfg ss (if nr then ss.lastProd 0 none else none) 0
   -- compileIfStatement (:690)
@@ -970,9 +987,9 @@ def emitS (cfg : Cfg) : Stmt → Bool → Code
          | .nonConst => .loop jneP (emitG cfg t true) (.seq (clr nr) (emitS cfg body nr)))
   -- compileLabeledDoWhileStatement (:221)
   | .doWhile body t, nr => .doLoop jeqP (cat [clr nr, emitS cfg body nr, emitE cfg t true])
-  -- compileLabeledForStatement (:262), initialiser an expression or absent
+  -- compileLabeledForStatement (:262), initialiser absent, an expression, or a `var` binding
   | .forS init test update body, nr =>
-      cat [optG cfg init, clr nr,
+      cat [emitForInit cfg init, clr nr,
         (match test with
          | none => .forever (cat [clr nr, emitS cfg body nr, optG cfg update])
          | some t =>
